@@ -127,7 +127,8 @@ func DecodeParts(b []byte) ([][]byte, error) {
 
 			b = b[5:]
 
-			if len(b) < l {
+			// l < 0: a length above MaxInt32 wraps where int is 32 bits wide
+			if l < 0 || len(b) < l {
 				return r, ErrDataTooSmall
 			}
 
